@@ -197,6 +197,7 @@ int main(int argc, char** argv) {
         else if (t[0] == "ops") cur.words.assign(t.begin() + 1, t.end());
         else if (t[0] == "argv") cur.argv.assign(t.begin() + 1, t.end());
         else if (t[0] == "cfg") cur.cfg.assign(t.begin() + 1, t.end());
+        else if (t[0].rfind("aux", 0) == 0) { /* library values for the model only */ }
         else if (t[0] == "run") { if (open) { dispatch(cur); std::cout.flush(); } open = false; }
         else { cur = Case(); cur.kind = t[0]; cur.id = t.size() > 1 ? t[1] : "?"; cur.head = t; open = true; }
     }
